@@ -890,6 +890,195 @@ enum Case {
     Beta { ops: Vec<BOp>, probes: Vec<String> },
     Memo { nodes: Vec<NodeSpec>, factsets: Vec<FactMap>, calls: Vec<(usize, usize)> },
     Concl { ops: Vec<COp>, goals: Vec<GoalSpec> },
+    /// the conclusion index as a BackwardEngine keeps it: knowledge-base edits after the engine
+    /// was built, `rebuild_index()`, queries compared with an engine built from scratch
+    Engine { steps: Vec<EStep> },
+}
+
+/// (name index, condition field index, threshold, goal field index, salience)
+#[derive(Clone, Debug, PartialEq)]
+struct ERule {
+    name: u8,
+    when: u8,
+    more_than: i64,
+    sets: u8,
+    salience: i32,
+}
+
+#[derive(Clone, Debug, PartialEq)]
+enum EStep {
+    /// before the engine is built
+    Setup(ERule),
+    Add(ERule),
+    Remove(u8),
+    Enable(u8, bool),
+    Rebuild,
+    Query(u8),
+}
+
+const E_WHEN: [&str; 3] = ["User.Points", "User.Spend", "User.Age"];
+const E_WHEN_VALUES: [i64; 3] = [50, 5000, 30];
+const E_SETS: [&str; 4] = ["User.IsVIP", "User.Premium", "Order.Free", "Flag"];
+
+fn estep_json(s: &EStep) -> Json {
+    let r = |r: &ERule| json!({"name": format!("E{}", r.name), "when": format!("{} > {}", E_WHEN[r.when as usize], r.more_than), "then": format!("{} = true", E_SETS[r.sets as usize]), "salience": r.salience,
+                               "raw": [r.name, r.when, r.more_than, r.sets, r.salience]});
+    match s {
+        EStep::Setup(x) => json!({"before_the_engine_is_built_add_rule": r(x)}),
+        EStep::Add(x) => json!({"knowledge_base_add_rule": r(x)}),
+        EStep::Remove(n) => json!({"knowledge_base_remove_rule": format!("E{}", n)}),
+        EStep::Enable(n, b) => json!({"knowledge_base_set_rule_enabled": [format!("E{}", n), b]}),
+        EStep::Rebuild => json!("rebuild_index"),
+        EStep::Query(g) => json!({"query": format!("{} == true", E_SETS[*g as usize]), "goal": g}),
+    }
+}
+fn estep_parse(j: &Json) -> Option<EStep> {
+    let r = |j: &Json| -> Option<ERule> {
+        let a = j["raw"].as_array()?;
+        Some(ERule { name: a[0].as_u64()? as u8, when: a[1].as_u64()? as u8, more_than: a[2].as_i64()?, sets: a[3].as_u64()? as u8, salience: a[4].as_i64()? as i32 })
+    };
+    let name = |v: &Json| -> Option<u8> { v.as_str()?.strip_prefix('E')?.parse().ok() };
+    if j.as_str() == Some("rebuild_index") {
+        return Some(EStep::Rebuild);
+    }
+    if let Some(x) = j.get("before_the_engine_is_built_add_rule") {
+        return Some(EStep::Setup(r(x)?));
+    }
+    if let Some(x) = j.get("knowledge_base_add_rule") {
+        return Some(EStep::Add(r(x)?));
+    }
+    if let Some(x) = j.get("knowledge_base_remove_rule") {
+        return Some(EStep::Remove(name(x)?));
+    }
+    if let Some(x) = j.get("knowledge_base_set_rule_enabled") {
+        return Some(EStep::Enable(name(&x[0])?, x[1].as_bool()?));
+    }
+    if j.get("query").is_some() {
+        return Some(EStep::Query(j["goal"].as_u64()? as u8));
+    }
+    None
+}
+
+fn e_rule(r: &ERule) -> Rule {
+    Rule::new(
+        format!("E{}", r.name),
+        ConditionGroup::single(Condition::new(E_WHEN[r.when as usize].to_string(), Operator::GreaterThan, Value::Integer(r.more_than))),
+        vec![ActionType::Set { field: E_SETS[r.sets as usize].to_string(), value: Value::Boolean(true) }],
+    )
+    .with_salience(r.salience)
+}
+
+fn e_facts() -> rust_rule_engine::Facts {
+    let f = rust_rule_engine::Facts::new();
+    for (k, v) in E_WHEN.iter().zip(E_WHEN_VALUES) {
+        f.set(k, Value::Integer(v));
+    }
+    f
+}
+
+/// Queries are compared after a `rebuild_index()` that follows the last edit ("rebuild the index
+/// after modifying the knowledge base"); a query asked while the index is stale is not judged.
+/// Memoisation is off on both engines (what a memo may keep across edits is C11's subject).
+fn run_engine_index(steps: &[EStep]) -> Option<(Vec<Disc>, Obs)> {
+    use rust_rule_engine::backward::{BackwardConfig, BackwardEngine};
+    let mut out = Vec::new();
+    let mut obs = Obs::default();
+    let kb = rust_rule_engine::KnowledgeBase::new("c16");
+    let mut i = 0;
+    while let Some(EStep::Setup(r)) = steps.get(i) {
+        let _ = kb.add_rule(e_rule(r));
+        i += 1;
+    }
+    let cfg = || BackwardConfig { enable_memoization: false, ..BackwardConfig::default() };
+    let mut engine = BackwardEngine::with_config(kb, cfg());
+    let mut stale = false;
+    let mut edits = 0u64;
+    for (si, st) in steps.iter().enumerate().skip(i) {
+        match st {
+            EStep::Setup(_) => return None,
+            EStep::Add(r) => {
+                if engine.knowledge_base().add_rule(e_rule(r)).is_ok() {
+                    stale = true;
+                    edits += 1;
+                    obs.readds += 1;
+                }
+            }
+            EStep::Remove(n) => {
+                if engine.knowledge_base().remove_rule(&format!("E{}", n)).unwrap_or(false) {
+                    stale = true;
+                    edits += 1;
+                    obs.effective_removes += 1;
+                }
+            }
+            EStep::Enable(n, b) => {
+                if engine.knowledge_base().set_rule_enabled(&format!("E{}", n), *b).unwrap_or(false) {
+                    stale = true;
+                    edits += 1;
+                }
+            }
+            EStep::Rebuild => {
+                engine.rebuild_index();
+                stale = false;
+            }
+            EStep::Query(g) => {
+                if stale {
+                    continue;
+                }
+                let q = format!("{} == true", E_SETS[*g as usize]);
+                let mut f1 = e_facts();
+                let a = engine.query(&q, &mut f1).map(|r| r.provable);
+                let mut fresh = BackwardEngine::with_config(engine.knowledge_base().clone(), cfg());
+                let mut f2 = e_facts();
+                let b = fresh.query(&q, &mut f2).map(|r| r.provable);
+                obs.comparisons += 1;
+                match (&a, &b) {
+                    (Ok(x), Ok(y)) => {
+                        if *y {
+                            obs.nonempty += 1;
+                        }
+                        if x != y {
+                            let rules: Vec<String> = engine.knowledge_base().get_rules().iter().map(|r| format!("{}(salience {}, enabled {})", r.name, r.salience, r.enabled)).collect();
+                            let cause = if *y { "engine-built-earlier-cannot-prove-what-a-fresh-engine-proves" } else { "engine-built-earlier-proves-what-a-fresh-engine-does-not" };
+                            push_disc(&mut out, "engine-index", cause, format!("step {}: after {} knowledge-base edits and rebuild_index(), query `{}`: the engine built earlier says provable = {}, an engine built from scratch on the same knowledge base [{}] says {}", si, edits, q, x, rules.join(", "), y));
+                        } else if edits > 0 && *y {
+                            obs.nontrivial = true;
+                        }
+                    }
+                    (Err(_), Err(_)) => {}
+                    _ => push_disc(&mut out, "engine-index", "one-engine-errs-the-other-answers", format!("step {}: query `{}`: engine built earlier {:?}, fresh engine {:?}", si, q, a.as_ref().map_err(|e| e.to_string()), b.as_ref().map_err(|e| e.to_string()))),
+                }
+            }
+        }
+    }
+    Some((out, obs))
+}
+
+fn gen_engine_index(rng: &mut Rng) -> Case {
+    let rule = |rng: &mut Rng| {
+        let when = rng.below(3) as u8;
+        // half of the conditions hold on the facts, half do not
+        let more_than = if rng.bool() { E_WHEN_VALUES[when as usize] - 1 - rng.below(20) as i64 } else { E_WHEN_VALUES[when as usize] + rng.below(20) as i64 };
+        ERule { name: rng.below(8) as u8, when, more_than, sets: rng.below(4) as u8, salience: *rng.pick(&[0, 0, 0, 10, -5, 3, 100]) }
+    };
+    let mut steps = Vec::new();
+    for _ in 0..rng.below(4) {
+        steps.push(EStep::Setup(rule(rng)));
+    }
+    let n = 3 + rng.below(10);
+    for _ in 0..n {
+        steps.push(match rng.below(12) {
+            0..=3 => EStep::Add(rule(rng)),
+            4 => EStep::Remove(rng.below(8) as u8),
+            5 => EStep::Enable(rng.below(8) as u8, rng.bool()),
+            6..=8 => EStep::Rebuild,
+            _ => EStep::Query(rng.below(4) as u8),
+        });
+    }
+    steps.push(EStep::Rebuild);
+    for g in 0..4u8 {
+        steps.push(EStep::Query(g));
+    }
+    Case::Engine { steps }
 }
 
 impl Case {
@@ -918,6 +1107,11 @@ impl Case {
                 "ops": ops.iter().map(cop_json).collect::<Vec<_>>(),
                 "goals": goals.iter().map(|g| g.to_json()).collect::<Vec<_>>(),
             }),
+            Case::Engine { steps } => json!({
+                "monitor": "engine-index",
+                "facts": E_WHEN.iter().zip(E_WHEN_VALUES).map(|(k, v)| format!("{} = {}", k, v)).collect::<Vec<_>>(),
+                "steps": steps.iter().map(estep_json).collect::<Vec<_>>(),
+            }),
         }
     }
     fn from_json(j: &Json) -> Option<Case> {
@@ -943,6 +1137,7 @@ impl Case {
                 ops: j["ops"].as_array()?.iter().map(cop_parse).collect::<Option<_>>()?,
                 goals: j["goals"].as_array()?.iter().map(GoalSpec::from_json).collect::<Option<_>>()?,
             }),
+            "engine-index" => Some(Case::Engine { steps: j["steps"].as_array()?.iter().map(estep_parse).collect::<Option<_>>()? }),
             _ => None,
         }
     }
@@ -952,6 +1147,7 @@ impl Case {
             Case::Beta { .. } => "beta",
             Case::Memo { .. } => "memo",
             Case::Concl { .. } => "conclusion",
+            Case::Engine { .. } => "engine-index",
         }
     }
 }
@@ -964,6 +1160,7 @@ fn run_case(c: &Case) -> Option<(Vec<Disc>, Obs)> {
         Case::Beta { ops, probes } => run_beta(ops, probes),
         Case::Memo { nodes, factsets, calls } => run_memo(nodes, factsets, calls),
         Case::Concl { ops, goals } => run_concl(ops, goals),
+        Case::Engine { steps } => run_engine_index(steps),
     }
 }
 
@@ -1049,6 +1246,16 @@ fn shrink(c: &Case, d: &Disc) -> Case {
             let goals = shrink_list(goals, &mut g);
             Case::Concl { ops, goals }
         }
+        Case::Engine { steps } => {
+            // set-up steps must stay in front: shrink the two parts separately
+            let k = steps.iter().take_while(|s| matches!(s, EStep::Setup(_))).count();
+            let (head, tail) = (steps[..k].to_vec(), steps[k..].to_vec());
+            let mut f = |t: &[EStep]| still(&Case::Engine { steps: head.iter().cloned().chain(t.iter().cloned()).collect() }, d);
+            let tail = shrink_list(&tail, &mut f);
+            let mut g = |h: &[EStep]| still(&Case::Engine { steps: h.iter().cloned().chain(tail.iter().cloned()).collect() }, d);
+            let head = shrink_list(&head, &mut g);
+            Case::Engine { steps: head.into_iter().chain(tail).collect() }
+        }
     }
 }
 
@@ -1085,12 +1292,16 @@ fn check_case(c: &Case, st: &mut Stats) {
                     st.add("conclusion::add_rule_under_a_present_name", obs.readds);
                     st.add("conclusion::expected_candidates", obs.expected_total);
                 }
+                Case::Engine { .. } => {
+                    st.add("engine-index::knowledge_base_removes", obs.effective_removes);
+                    st.add("engine-index::knowledge_base_adds", obs.readds);
+                }
             }
             if obs.nontrivial {
                 st.nontrivial(hash_of(&format!("{:?}", c)));
                 st.count(&format!("{}::nontrivial_histories", mon));
                 // one sample per monitor and shard
-                let bit = 1u8 << ["alpha", "beta", "memo", "conclusion"].iter().position(|m| *m == mon).unwrap_or(0);
+                let bit = 1u8 << ["alpha", "beta", "memo", "conclusion", "engine-index"].iter().position(|m| *m == mon).unwrap_or(0);
                 if SAMPLED.with(|s| s.get()) & bit == 0 && st.samples.len() < SAMPLE_CAP {
                     SAMPLED.with(|s| s.set(s.get() | bit));
                     st.sample(|| c.to_json());
@@ -1402,7 +1613,7 @@ impl Check for C16 {
         "C16"
     }
     fn rule(&self) -> String {
-        "Four differential monitors, histories of 1..=10 random ops each (alpha, beta and conclusion: one history in 20 has 40..=300 ops, hundreds of indexed facts / up to 120 rule names), value domain = integers, floats incl. 0.0/-0.0/NaN/+-inf, numeric-looking strings, booleans, (nested) arrays, null (37 values). alpha: ops insert/create_index/drop_index/filter_tracked/auto_tune on the real AlphaMemoryIndex, inserts mirrored into a never-indexed shadow; after EVERY op filter(field, v) is compared as a multiset for 3 fields x every domain value (3/5 of the histories use the domain without NaN/-0.0). beta: ops add/remove (live, removed-before and never-added positions) on BetaMemoryIndex; after every op lookup(key) for the printed key of every domain value and every live fact is compared with the scan of the harness's live list. memo: one MemoizedEvaluator, 2..=10 evaluate calls over 1..=3 generated nodes (in half of the histories plus a near-duplicate of one of them: exactly one parameter of one leaf differs) (alpha nodes with 11 operators x 16 literals, And/Or/Not/Exists/Forall to depth 2, multifield nodes) x 2..=4 fact sets; in half of the histories the fact sets print alike (as_str) but differ in type; every call is compared with evaluate_typed. conclusion: ops add_rule (1..=3 actions Set/Log/MethodCall/Retract, 1/6 disabled) / remove_rule (present or absent name) on ConclusionIndex; after every op find_candidates(goal) must contain every enabled present rule with a Set on the goal's field, for 10 fields (three with non-ASCII letters in their names) x 13 goal spellings (bare field, == != > >= < <= contains matches, tight/blank spacing); 1/3 of the histories add goals whose string literal holds operator text and negated goals (NOT / !). EXHAUSTIVE sub-spaces: all (stored value, probe value) pairs of the domain for alpha (index created before and after the insert) and beta; all ordered pairs of print-alike values x 11 operators x 16 literals for memo. Non-trivial: alpha = some filter answered through an index was non-empty and some was empty; beta / conclusion = a non-empty expected answer after an effective remove; memo = at least one cache hit and both verdicts observed. Distinct by the whole history.".into()
+        "Five differential monitors (the fifth, engine-index: a BackwardEngine with memoisation off on a knowledge base of 0..=3 rules `E<n>: when User.<x> > t then <goal field> = true` (8 names, 4 goal fields, 7 saliences); then 3..=12 steps add_rule / remove_rule / set_rule_enabled on engine.knowledge_base(), rebuild_index(), query; every query asked after a rebuild_index() that follows the last edit is compared with an engine built from scratch on the same knowledge base), histories of 1..=10 random ops each (alpha, beta and conclusion: one history in 20 has 40..=300 ops, hundreds of indexed facts / up to 120 rule names), value domain = integers, floats incl. 0.0/-0.0/NaN/+-inf, numeric-looking strings, booleans, (nested) arrays, null (37 values). alpha: ops insert/create_index/drop_index/filter_tracked/auto_tune on the real AlphaMemoryIndex, inserts mirrored into a never-indexed shadow; after EVERY op filter(field, v) is compared as a multiset for 3 fields x every domain value (3/5 of the histories use the domain without NaN/-0.0). beta: ops add/remove (live, removed-before and never-added positions) on BetaMemoryIndex; after every op lookup(key) for the printed key of every domain value and every live fact is compared with the scan of the harness's live list. memo: one MemoizedEvaluator, 2..=10 evaluate calls over 1..=3 generated nodes (in half of the histories plus a near-duplicate of one of them: exactly one parameter of one leaf differs) (alpha nodes with 11 operators x 16 literals, And/Or/Not/Exists/Forall to depth 2, multifield nodes) x 2..=4 fact sets; in half of the histories the fact sets print alike (as_str) but differ in type; every call is compared with evaluate_typed. conclusion: ops add_rule (1..=3 actions Set/Log/MethodCall/Retract, 1/6 disabled) / remove_rule (present or absent name) on ConclusionIndex; after every op find_candidates(goal) must contain every enabled present rule with a Set on the goal's field, for 10 fields (three with non-ASCII letters in their names) x 13 goal spellings (bare field, == != > >= < <= contains matches, tight/blank spacing); 1/3 of the histories add goals whose string literal holds operator text and negated goals (NOT / !). EXHAUSTIVE sub-spaces: all (stored value, probe value) pairs of the domain for alpha (index created before and after the insert) and beta; all ordered pairs of print-alike values x 11 operators x 16 literals for memo. Non-trivial: alpha = some filter answered through an index was non-empty and some was empty; beta / conclusion = a non-empty expected answer after an effective remove; memo = at least one cache hit and both verdicts observed. Distinct by the whole history.".into()
     }
     fn assumptions(&self) -> Vec<String> {
         vec![
@@ -1476,12 +1687,13 @@ impl Check for C16 {
                     0 => gen_alpha(rng),
                     1 => gen_beta(rng),
                     2 => gen_memo(rng),
+                    _ if i % 64 == 3 => gen_engine_index(rng),
                     _ => gen_concl(rng),
                 };
                 check_case(&c, st);
             }
         });
-        for mon in ["alpha", "beta", "memo", "conclusion"] {
+        for mon in ["alpha", "beta", "memo", "conclusion", "engine-index"] {
             if st.get(&format!("{}::comparisons", mon)) == 0 {
                 st.inconclusive(format!("the {} monitor compared nothing", mon));
             }
